@@ -81,6 +81,19 @@ def exact_cases(chk: Check, n, family, with_gen):
             kind, a, b = "scalar", F(rng.choice([1, 2, 3, 5])), F(0)
         if i % 7 == 0 and kind == "mapping":      # k = n*p exactly: d = 0, the correction must not move it
             a, b = F(ct), F(cc) if cc else F(1)
+        if i % 7 == 3:
+            # 0 < |k - n*p| < 1/2: the continuity correction must clamp the deviation at 0 (p-value exactly 1), not
+            # carry it across — needs a share n*p that is neither an integer nor a half-integer, and k next to it
+            total = cc + ct if cc + ct >= 3 else 30
+            if kind == "scalar":
+                a = F(rng.choice([2, 3, 5]))
+                share = a / (1 + a)
+            else:
+                share = (a / b) / (1 + a / b)
+            np_ = total * share
+            k0 = int(np_)
+            ct = k0 if (np_ - k0 < F(1, 2) and np_ != k0) or k0 + 1 > total else k0 + 1
+            cc = total - ct
         cases.append(dict(method=method, corr=corr, cc=cc, ct=ct, kind=kind, a=a, b=b))
     wire = [f"sr {family} {c['kind']} {rs(c['a'])} {rs(c['b'])} {c['method']} {int(c['corr'])} {c['cc']} {c['ct']}"
             for c in cases]
